@@ -674,6 +674,7 @@ type wgenOpts struct {
 	noFlbU     bool // no firstLeadingBit on unsigned operands (C04 finding: MSL treats all-ones like the signed case)
 	constInit  bool // private globals initialised by a named module constant or a negated literal (C04/C05 findings)
 	noValIdx   bool // no dynamic index into a by-value vector (let / parameter) (C04 finding: MSL RZSW ternary without parentheses)
+	fwdNest    bool // a continue inside a regular switch nested in a single-clause switch inside a loop (continue forwarding)
 	contCall   bool // a helper that is the only user of a private global, called only from a loop's continuing block / for-update
 }
 
@@ -1978,6 +1979,10 @@ func genModule(c *ctx, o wgenOpts) (*wmodule, map[string]int) {
 		addContCall(c, g.m)
 		g.f("continuing-only-call")
 	}
+	if o.fwdNest {
+		addFwdNest(c, g.m)
+		g.f("forwarded-continue-through-two-switches")
+	}
 	return g.m, g.feat
 }
 
@@ -2044,6 +2049,52 @@ func addContCall(c *ctx, m *wmodule) {
 		body = append(append(append([]*wstmt{}, body[:n-1]...), &wstmt{k: "block", body: blk}), body[n-1])
 	} else {
 		body = append(body, &wstmt{k: "block", body: blk})
+	}
+	m.entry.body = body
+}
+
+// addFwdNest appends to main a loop holding a single-clause switch (written as do { } while(false) by the HLSL / GLSL
+// writers) whose body contains a regular switch with a `continue` in one clause, followed by an observable statement —
+// the shape in which a forwarded continue has to leave two switches.
+func addFwdNest(c *ctx, m *wmodule) {
+	lit := func(v uint32) *wexpr { return &wexpr{k: "lit", ty: tU32, bits: v, konst: true, small: v <= 8} }
+	inpAt := func(i uint32) *wexpr {
+		return &wexpr{k: "idx", ty: tU32, args: []*wexpr{{k: "var", ty: tArr(0, tU32), name: "inp"}, lit(i)}}
+	}
+	outAt := func(i uint32) *wexpr {
+		return &wexpr{k: "idx", ty: tU32, args: []*wexpr{{k: "var", ty: tArr(0, tU32), name: "outp"}, lit(i)}}
+	}
+	iv := &wexpr{k: "var", ty: tU32, name: "ifw"}
+	sel := func(k uint32) *wexpr {
+		return &wexpr{k: "bin", ty: tU32, op: "%", args: []*wexpr{{k: "bin", ty: tU32, op: "+", args: []*wexpr{inpAt(k), iv}}, lit(3)}}
+	}
+	inner := &wstmt{k: "switch", e: sel(uint32(c.rng.Intn(16))), cases: []wcase{
+		{sels: []uint32{1}, body: []*wstmt{{k: "continue"}}},
+		{sels: []uint32{2}, body: []*wstmt{{k: "opassign", op: "+", lhs: outAt(13), e: lit(7)}}},
+		{deflt: true, body: nil},
+	}}
+	if c.chance(0.5) {
+		// the continue one level deeper: inside an `if` of the clause
+		inner.cases[0].body = []*wstmt{{k: "if", e: &wexpr{k: "bin", ty: tBool, op: "!=", args: []*wexpr{inpAt(uint32(c.rng.Intn(16))), lit(0)}}, body: []*wstmt{{k: "continue"}}},
+			{k: "opassign", op: "^", lhs: outAt(13), e: lit(1)}}
+	}
+	outer := &wstmt{k: "switch", e: sel(uint32(c.rng.Intn(16))), cases: []wcase{
+		{deflt: true, body: []*wstmt{inner, {k: "opassign", op: "+", lhs: outAt(14), e: lit(5)}}},
+	}}
+	if c.chance(0.3) {
+		outer.cases = []wcase{{sels: []uint32{0, 1}, deflt: true, body: outer.cases[0].body}}
+	}
+	loop := &wstmt{k: "loop",
+		body: []*wstmt{{k: "if", e: &wexpr{k: "bin", ty: tBool, op: ">=", args: []*wexpr{iv, lit(3)}}, body: []*wstmt{{k: "break"}}},
+			outer, {k: "opassign", op: "+", lhs: outAt(12), e: lit(1)}},
+		els: []*wstmt{{k: "assign", lhs: iv, e: &wexpr{k: "bin", ty: tU32, op: "+", args: []*wexpr{iv, lit(1)}}}}}
+	blk := &wstmt{k: "block", body: []*wstmt{{k: "var", name: "ifw", ty: tU32, e: lit(0)}, loop}}
+	body := m.entry.body
+	n := len(body)
+	if n > 0 && body[n-1].k == "return" {
+		body = append(append(append([]*wstmt{}, body[:n-1]...), blk), body[n-1])
+	} else {
+		body = append(body, blk)
 	}
 	m.entry.body = body
 }
